@@ -21,6 +21,10 @@ def plan(tier, ctx):
                                 dict(harness=H, units=units, defines=defs, hdefines=["H_MUL", "B_HI=%d" % bh],
                                      unwind=9, witness=(bh == 7), timeout=600), core=True, family="H_MUL", weight=5))
         if cfg == "default":
+            # gf_vect_mul_init has a second, portable body ("32-bit or other", also big-endian hosts) that the x86-64 build never
+            # compiles: decided here by overriding the predefined byte-order macro for the unit (word-size independent C)
+            qs.append(Query("H_TBL/portable_branch", R, dict(harness=H, units=units, defines=["__BYTE_ORDER__=4321"], hdefines=["H_TBL"],
+                                                             unwind=49, witness=True, timeout=600), core=False, family="H_TBL"))
             for (k, rows) in [(1, 1), (2, 3), (3, 2), (4, 4), (1, 4), (4, 1)] + ([(2, 2), (3, 3), (4, 3), (3, 4)] if tier != "quick" else []):
                 qs.append(Query("H_INIT/k%d_r%d" % (k, rows), R,
                                 dict(harness=H, units=units, hdefines=["H_INIT", "KK=%d" % k, "ROWS=%d" % rows],
